@@ -33,7 +33,7 @@ double GoldenSectionSearch::GSSStopCondition::getCurrentTolerance() const
 
 GoldenSectionSearch::GoldenSectionSearch(std::shared_ptr<FunctionInterface> function) :
   AbstractOptimizer(function),
-  f1(0), f2(0), x0(0), x1(0), x2(0), x3(0), xinf_(0), xsup_(0), isInitialIntervalSet_(false)
+  f1(0), f2(0), x0(0), x1(0), x2(0), x3(0), xinf_(0), xsup_(0), xinit_(0), finit_(0), isInitialIntervalSet_(false)
 {
   nbEvalMax_ = 10000;
   setDefaultStopCondition_(make_shared<GSSStopCondition>(this));
@@ -47,6 +47,10 @@ void GoldenSectionSearch::doInit(const ParameterList& params)
   // Set the initial value (no use here! Use setInitialValues() instead).
   if (params.size() != 1)
     throw Exception("GoldenSectionSearch::init(). This optimizer only deals with one parameter.");
+
+  // Remember the initial guess, so that the search never reports a worse point:
+  xinit_ = getParameters()[0].getValue();
+  finit_ = getFunction()->f(getParameters());
 
   // Bracket the minimum.
   Bracket bracket = OneDimensionOptimizationTools::bracketMinimum(xinf_, xsup_, function(), getParameters());
@@ -126,6 +130,22 @@ double GoldenSectionSearch::doStep()
     NumTools::shift<double>(f2, f1, getFunction()->f(getParameters()));
     return f1;
   }
+}
+
+/******************************************************************************/
+
+double GoldenSectionSearch::optimize()
+{
+  AbstractOptimizer::optimize();
+  // The last point evaluated is a trial point: report the better of the two inner points instead,
+  // unless the initial guess is at least as good.
+  double xbest = (f1 < f2) ? x1 : x2;
+  double fbest = (f1 < f2) ? f1 : f2;
+  if (finit_ <= fbest)
+    xbest = xinit_;
+  getParameter_(0).setValue(xbest);
+  currentValue_ = getFunction()->f(getParameters());
+  return currentValue_;
 }
 
 /******************************************************************************/
